@@ -309,6 +309,101 @@ def _normalise_numeric_augassign(tree: ast.Module) -> None:
     Tr().visit(tree)
 
 
+def _normalise_partition_loops(tree: ast.Module) -> None:
+    """A dict partition built by one loop is the pair of filtered comprehensions:
+
+        A, B = {}, {}                         B = {k: v for k, v in X.items() if k > C}
+        for k, v in X.items():         ==>    A = {k: v for k, v in X.items() if k <= C}
+            if k > C: B[k] = v
+            else: A[k] = v
+
+    (both names bound to empty dict displays earlier in the same statement list and not touched in between)."""
+    neg = {ast.Gt: ast.LtE, ast.GtE: ast.Lt, ast.Lt: ast.GtE, ast.LtE: ast.Gt}
+
+    def store_of(body, k, v):
+        if len(body) == 1 and isinstance(body[0], ast.Assign) and len(body[0].targets) == 1:
+            t = body[0].targets[0]
+            if isinstance(t, ast.Subscript) and isinstance(t.value, ast.Name) and isinstance(t.slice, ast.Name) and t.slice.id == k \
+                    and isinstance(body[0].value, ast.Name) and body[0].value.id == v:
+                return t.value.id
+        return None
+
+    def empty_init(st, name):
+        """index of `name` in an assignment of empty dict displays, else None"""
+        if isinstance(st, ast.Assign) and len(st.targets) == 1:
+            t, v = st.targets[0], st.value
+            if isinstance(t, ast.Name) and t.id == name and isinstance(v, ast.Dict) and not v.keys:
+                return -1
+            if isinstance(t, ast.Tuple) and isinstance(v, ast.Tuple) and len(t.elts) == len(v.elts):
+                for i, (a, b) in enumerate(zip(t.elts, v.elts)):
+                    if isinstance(a, ast.Name) and a.id == name and isinstance(b, ast.Dict) and not b.keys:
+                        return i
+        return None
+
+    def conv(stmts):
+        for idx, st in enumerate(list(stmts)):
+            for fld in ("body", "orelse", "finalbody"):
+                sub = getattr(st, fld, None)
+                if isinstance(sub, list) and sub and isinstance(sub[0], ast.stmt):
+                    conv(sub)
+            for h in getattr(st, "handlers", []) or []:
+                conv(h.body)
+            if not (isinstance(st, ast.For) and not st.orelse and isinstance(st.target, ast.Tuple) and len(st.target.elts) == 2
+                    and all(isinstance(e, ast.Name) for e in st.target.elts) and isinstance(st.iter, ast.Call) and isinstance(st.iter.func, ast.Attribute)
+                    and st.iter.func.attr == "items" and not st.iter.args and len(st.body) == 1 and isinstance(st.body[0], ast.If) and st.body[0].orelse):
+                continue
+            k, v = st.target.elts[0].id, st.target.elts[1].id
+            iff = st.body[0]
+            t = iff.test
+            if not (isinstance(t, ast.Compare) and len(t.ops) == 1 and type(t.ops[0]) in neg and isinstance(t.left, ast.Name) and t.left.id == k and isinstance(t.comparators[0], ast.Constant)):
+                continue
+            a, b = store_of(iff.body, k, v), store_of(iff.orelse, k, v)
+            if a is None or b is None or a == b:
+                continue
+            here = stmts.index(st)
+            inits = {}
+            for nm in (a, b):
+                for j in range(here - 1, -1, -1):
+                    if empty_init(stmts[j], nm) is not None:
+                        inits[nm] = j
+                        break
+                    if any(isinstance(x, ast.Name) and x.id == nm for x in ast.walk(stmts[j])):
+                        break
+            if len(inits) != 2:
+                continue
+
+            def comp(op, const):
+                import copy
+                return ast.DictComp(key=ast.Name(id=k, ctx=ast.Load()), value=ast.Name(id=v, ctx=ast.Load()),
+                                    generators=[ast.comprehension(target=copy.deepcopy(st.target), iter=copy.deepcopy(st.iter),
+                                                                  ifs=[ast.Compare(left=ast.Name(id=k, ctx=ast.Load()), ops=[op()], comparators=[ast.Constant(value=const)])], is_async=0)])
+            c = t.comparators[0].value
+            na = ast.Assign(targets=[ast.Name(id=a, ctx=ast.Store())], value=comp(type(t.ops[0]), c), type_comment=None)
+            nb = ast.Assign(targets=[ast.Name(id=b, ctx=ast.Store())], value=comp(neg[type(t.ops[0])], c), type_comment=None)
+            for n_ in (na, nb):
+                ast.copy_location(n_, st)
+                for x in ast.walk(n_):
+                    ast.copy_location(x, st)
+                n_.end_lineno, n_.end_col_offset = getattr(st, "end_lineno", None), getattr(st, "end_col_offset", None)
+            stmts[here:here + 1] = [na, nb]
+            # drop the empty initialisations
+            for j in sorted(set(inits.values()), reverse=True):
+                ini = stmts[j]
+                if isinstance(ini.targets[0], ast.Name):
+                    del stmts[j]
+                else:
+                    keep = [(x, y) for x, y in zip(ini.targets[0].elts, ini.value.elts) if not (isinstance(x, ast.Name) and x.id in (a, b))]
+                    if not keep:
+                        del stmts[j]
+                    elif len(keep) == 1:
+                        ini.targets[0], ini.value = keep[0]
+                    else:
+                        ini.targets[0].elts, ini.value.elts = [x for x, _ in keep], [y for _, y in keep]
+    for n in ast.walk(tree):
+        if isinstance(n, (ast.FunctionDef, ast.AsyncFunctionDef)):
+            conv(n.body)
+
+
 def _normalise_local_annotations(tree: ast.Module) -> None:
     """Inside function bodies, `x: T = v` is the same statement as `x = v` for every rule
     here: rewrite it to an Assign (the annotation is kept in `.ann`), so that adding or
@@ -483,6 +578,7 @@ class Index:
                 _normalise_local_annotations(tree)
                 _normalise_negated_compares(tree)
                 _normalise_numeric_augassign(tree)
+                _normalise_partition_loops(tree)
                 _normalise_empty_containers(tree)
                 _normalise_namespace_aliases(tree)
                 _normalise_returned_temps(tree)
